@@ -44,6 +44,7 @@ type Node struct {
 	failed   bool // consensus routine reported CONSENSUS FAILURE
 	failMsg  string
 	killReq  bool // node asked to be killed (cmn.Kill)
+	killSeen bool
 	outbox   []cs.ConsensusMessage
 	timer    *pendingTimer
 	timerGen int
@@ -62,6 +63,10 @@ type pendingTimer struct {
 type failTap struct{ n *Node }
 
 func (h failTap) Log(r *log.Record) error {
+	if strings.Contains(r.Msg, "Error on ApplyBlock") {
+		h.n.killReq = true
+		h.n.failMsg = fmt.Sprint(r.Ctx...)
+	}
 	if strings.Contains(r.Msg, "CONSENSUS FAILURE") {
 		h.n.failed = true
 		h.n.failMsg = fmt.Sprint(r.Ctx...)
